@@ -206,7 +206,7 @@ def run(prog, rep, tier):
                 ok = bool(rte) and not raw
                 for f in rte:
                     ro = origins(body, [f[1].args[0].place[0]])
-                    tk = [body.blocks[c].term for c in ro.calls if body.blocks[c].term.cmethod == 'take']
+                    tk = [body.blocks[c].term for c in ro.calls if body.blocks[c].term.cmethod == 'take' and body.blocks[c].term.ctrait == 'std::io::Read']
                     okt = len(tk) == 1 and const_eval(body, tk[0].args[1]) is not None or (len(tk) == 1 and (const_of(body, tk[0].args[1]) or {}).get('def'))
                     inner = len(tk) == 1 and any(ff[-1] == 'inner' for ff in origins(body, [tk[0].args[0].place[0]], through_calls=False).fields)
                     ok = ok and bool(okt) and inner
